@@ -281,6 +281,14 @@ pub fn exec_approx<S: Sc + BaseFloat>(op: &str, f: &str, a: &[Val<S>]) -> Option
         }).collect();
         return Some(Tup(vec![B(c), bools(sv)]));
     }
+    // Zero::is_zero of an angle built from a raw number
+    if f == "raw" && op == "is_zero_approx" {
+        if let [T(unit), N(x)] = a {
+            let c = match unit.as_str() { "Rad" => Rad(*x).is_zero(), "Deg" => Deg(*x).is_zero(), _ => return None };
+            return Some(Tup(vec![B(c), bools(vec![x.ulps_eq(&S::zero(), <S as AbsDiffEq>::default_epsilon(), <S as UlpsEq>::default_max_ulps())])]));
+        }
+        return None;
+    }
     // angles and Euler triples are built from raw numbers inside the call: f = "raw", args (T unit, x.., y.., eps [, rel | ulps])
     if f == "raw" {
         if let Some(T(unit)) = a.first() {
